@@ -14,6 +14,11 @@ let () = read_lines (fun l ->
      | "C" -> out id (nice_candidate_ice_priority (zs rel) (zs nat) (zs ty) (zs tty) (zs tr) (zs tnn) (zs tpref) (zs ip) (zs comp))
      | "D" -> out id (nice_candidate_ms_ice_priority (zs rel) (zs nat) (zs ty) (zs tty) (zs tr) (zs tnn) (zs tpref) (zs ip) (zs comp))
      | _ -> out id (nice_candidate_ice_type_preference (zs rel) (zs nat) (zs ty) (zs tty) (zs tr)))
+  | id :: "Y" :: [rel; tr; ipidx; nips; comp] ->
+    (* RFC 8445 7.1.1: the priority a peer-reflexive candidate learnt from this check would get (same transport, base and component) *)
+    let ip = if int_of_string ipidx < int_of_string nips then ipidx else nips in
+    let v = match nice_candidate_ice_priority (zs rel) (zs "0") c_NICE_CANDIDATE_TYPE_PEER_REFLEXIVE (zs "0") (zs tr) (zs "0") (zs "0") (zs ip) (zs comp) with Some v -> string_of_z v | None -> "F" in
+    print_endline (id ^ " " ^ v ^ " " ^ v)
   | id :: "R" :: [rel; nat; tr; tty] ->
     let f ty = match nice_candidate_ice_type_preference (zs rel) (zs nat) ty (zs tty) (zs tr) with Some v -> " " ^ string_of_z v | None -> " F" in
     print_endline (id ^ f c_NICE_CANDIDATE_TYPE_HOST ^ f c_NICE_CANDIDATE_TYPE_PEER_REFLEXIVE ^ f c_NICE_CANDIDATE_TYPE_SERVER_REFLEXIVE ^ f c_NICE_CANDIDATE_TYPE_RELAYED)
